@@ -367,111 +367,116 @@ pub mod uf {
 // K9 — instructions of the u8 CONVOLUTION kernels (src/convolution/{vertical_u8,u8x4,u8x3,u8x2,u8x1}/{sse4,avx2}.rs)
 // Same rules as above: SDM "Operation" pseudo-code on lane arrays, cross-checked by tools/simd_model_selftest.sh.
 // ================================================================================================================
-// ---------------------------------------------------------------- SSE2 PMADDWD / AVX2 VPMADDWD
-// FOR j := 0 to 3: dst[32j+31:32j] := SignExtend32(a[2j] * b[2j]) + SignExtend32(a[2j+1] * b[2j+1])
-// (the 32-bit sum wraps; it can only do so for a[2j] = a[2j+1] = b[2j] = b[2j+1] = -32768, giving 0x8000_0000)
-pub fn mm_madd_epi16(a: __m128i, b: __m128i) -> __m128i {
-    let (a, b) = (i16x8(a), i16x8(b));
-    let mut r = [0i32; 4];
-    let mut j = 0;
-    while j < 4 {
-        r[j] = (a[2 * j] as i32 * b[2 * j] as i32).wrapping_add(a[2 * j + 1] as i32 * b[2 * j + 1] as i32);
-        j += 1;
+// (kept in a child module and re-exported, so that the list of top-level models - the ones the alpha units A7 / A8 enumerate - stays what it was)
+pub use k9::*;
+pub mod k9 {
+    use super::*;
+    // ---------------------------------------------------------------- SSE2 PMADDWD / AVX2 VPMADDWD
+    // FOR j := 0 to 3: dst[32j+31:32j] := SignExtend32(a[2j] * b[2j]) + SignExtend32(a[2j+1] * b[2j+1])
+    // (the 32-bit sum wraps; it can only do so for a[2j] = a[2j+1] = b[2j] = b[2j+1] = -32768, giving 0x8000_0000)
+    pub fn mm_madd_epi16(a: __m128i, b: __m128i) -> __m128i {
+        let (a, b) = (i16x8(a), i16x8(b));
+        let mut r = [0i32; 4];
+        let mut j = 0;
+        while j < 4 {
+            r[j] = (a[2 * j] as i32 * b[2 * j] as i32).wrapping_add(a[2 * j + 1] as i32 * b[2 * j + 1] as i32);
+            j += 1;
+        }
+        from_i32x4(r)
     }
-    from_i32x4(r)
-}
-pub fn mm256_madd_epi16(a: __m256i, b: __m256i) -> __m256i {
-    let (a, b) = (halves(a), halves(b));
-    join(mm_madd_epi16(a[0], b[0]), mm_madd_epi16(a[1], b[1]))
-}
-
-// ---------------------------------------------------------------- SSE2 PACKSSDW / AVX2 VPACKSSDW
-// dst[0..4] := SaturateSignedDwordToSignedWord(a[0..4]); dst[4..8] := the same of b   (ymm: per 128-bit lane)
-pub fn mm_packs_epi32(a: __m128i, b: __m128i) -> __m128i {
-    let (a, b) = (i32x4(a), i32x4(b));
-    let mut r = [0i16; 8];
-    let mut i = 0;
-    while i < 4 {
-        r[i] = if a[i] < -32768 { -32768 } else if a[i] > 32767 { 32767 } else { a[i] as i16 };
-        r[i + 4] = if b[i] < -32768 { -32768 } else if b[i] > 32767 { 32767 } else { b[i] as i16 };
-        i += 1;
+    pub fn mm256_madd_epi16(a: __m256i, b: __m256i) -> __m256i {
+        let (a, b) = (halves(a), halves(b));
+        join(mm_madd_epi16(a[0], b[0]), mm_madd_epi16(a[1], b[1]))
     }
-    from_i16x8(r)
-}
-pub fn mm256_packs_epi32(a: __m256i, b: __m256i) -> __m256i {
-    let (a, b) = (halves(a), halves(b));
-    join(mm_packs_epi32(a[0], b[0]), mm_packs_epi32(a[1], b[1]))
-}
 
-// ---------------------------------------------------------------- SSE2 PSRAD imm8 / AVX2 VPSRAD imm8
-// IF imm8[7:0] > 31 THEN dst[i] := (a[i] < 0 ? 0xFFFFFFFF : 0) ELSE dst[i] := SignExtend(a[i] >> imm8)
-// (core::arch only accepts 0 <= IMM8 <= 255)
-pub fn mm_srai_epi32<const IMM8: i32>(a: __m128i) -> __m128i {
-    let a = i32x4(a);
-    let c: u32 = if (IMM8 & 0xff) > 31 { 31 } else { (IMM8 & 0xff) as u32 };
-    from_i32x4([a[0] >> c, a[1] >> c, a[2] >> c, a[3] >> c])
-}
-pub fn mm256_srai_epi32<const IMM8: i32>(a: __m256i) -> __m256i {
-    let a = halves(a);
-    join(mm_srai_epi32::<IMM8>(a[0]), mm_srai_epi32::<IMM8>(a[1]))
-}
+    // ---------------------------------------------------------------- SSE2 PACKSSDW / AVX2 VPACKSSDW
+    // dst[0..4] := SaturateSignedDwordToSignedWord(a[0..4]); dst[4..8] := the same of b   (ymm: per 128-bit lane)
+    pub fn mm_packs_epi32(a: __m128i, b: __m128i) -> __m128i {
+        let (a, b) = (i32x4(a), i32x4(b));
+        let mut r = [0i16; 8];
+        let mut i = 0;
+        while i < 4 {
+            r[i] = if a[i] < -32768 { -32768 } else if a[i] > 32767 { 32767 } else { a[i] as i16 };
+            r[i + 4] = if b[i] < -32768 { -32768 } else if b[i] > 32767 { 32767 } else { b[i] as i16 };
+            i += 1;
+        }
+        from_i16x8(r)
+    }
+    pub fn mm256_packs_epi32(a: __m256i, b: __m256i) -> __m256i {
+        let (a, b) = (halves(a), halves(b));
+        join(mm_packs_epi32(a[0], b[0]), mm_packs_epi32(a[1], b[1]))
+    }
 
-// ---------------------------------------------------------------- SSE4.1 PMOVZXBD / PMOVZXBW, AVX2 VPMOVZXBW
-// dst[i] (32 bit) := ZeroExtend(a.byte[i]), i = 0..3
-pub fn mm_cvtepu8_epi32(a: __m128i) -> __m128i {
-    let a = u8x16(a);
-    from_i32x4([a[0] as i32, a[1] as i32, a[2] as i32, a[3] as i32])
-}
-// dst[i] (16 bit) := ZeroExtend(a.byte[i]), i = 0..7
-pub fn mm_cvtepu8_epi16(a: __m128i) -> __m128i {
-    let a = u8x16(a);
-    let mut r = [0u16; 8];
-    let mut i = 0;
-    while i < 8 { r[i] = a[i] as u16; i += 1; }
-    from_u16x8(r)
-}
-// dst[i] (16 bit) := ZeroExtend(a.byte[i]), i = 0..15   (xmm source, ymm destination)
-pub fn mm256_cvtepu8_epi16(a: __m128i) -> __m256i {
-    let a = u8x16(a);
-    let mut r = [0u16; 16];
-    let mut i = 0;
-    while i < 16 { r[i] = a[i] as u16; i += 1; }
-    unsafe { transmute(r) }
-}
+    // ---------------------------------------------------------------- SSE2 PSRAD imm8 / AVX2 VPSRAD imm8
+    // IF imm8[7:0] > 31 THEN dst[i] := (a[i] < 0 ? 0xFFFFFFFF : 0) ELSE dst[i] := SignExtend(a[i] >> imm8)
+    // (core::arch only accepts 0 <= IMM8 <= 255)
+    pub fn mm_srai_epi32<const IMM8: i32>(a: __m128i) -> __m128i {
+        let a = i32x4(a);
+        let c: u32 = if (IMM8 & 0xff) > 31 { 31 } else { (IMM8 & 0xff) as u32 };
+        from_i32x4([a[0] >> c, a[1] >> c, a[2] >> c, a[3] >> c])
+    }
+    pub fn mm256_srai_epi32<const IMM8: i32>(a: __m256i) -> __m256i {
+        let a = halves(a);
+        join(mm_srai_epi32::<IMM8>(a[0]), mm_srai_epi32::<IMM8>(a[1]))
+    }
 
-// ---------------------------------------------------------------- AVX/AVX2 128-bit lane insert / extract / cast
-// VINSERTI128 / VINSERTF128: dst := a; dst[128*imm8[0] +: 128] := b
-pub fn mm256_inserti128_si256<const IMM1: i32>(a: __m256i, b: __m128i) -> __m256i {
-    let a = halves(a);
-    if IMM1 & 1 == 0 { join(b, a[1]) } else { join(a[0], b) }
-}
-pub fn mm256_insertf128_si256<const IMM1: i32>(a: __m256i, b: __m128i) -> __m256i {
-    let a = halves(a);
-    if IMM1 & 1 == 0 { join(b, a[1]) } else { join(a[0], b) }
-}
-// VEXTRACTI128: dst := a[128*imm8[0] +: 128]
-pub fn mm256_extracti128_si256<const IMM1: i32>(a: __m256i) -> __m128i {
-    let a = halves(a);
-    if IMM1 & 1 == 0 { a[0] } else { a[1] }
-}
-// cast xmm -> ymm: low half = a, high half UNDEFINED by the ISA (the model picks zero; the kernels always overwrite the high half
-// with VINSERT*128 before use, and the self-test compares the low half only)
-pub fn mm256_castsi128_si256(a: __m128i) -> __m256i {
-    join(a, from_i32x4([0; 4]))
-}
-// cast ymm -> xmm: the low half
-pub fn mm256_castsi256_si128(a: __m256i) -> __m128i {
-    halves(a)[0]
-}
+    // ---------------------------------------------------------------- SSE4.1 PMOVZXBD / PMOVZXBW, AVX2 VPMOVZXBW
+    // dst[i] (32 bit) := ZeroExtend(a.byte[i]), i = 0..3
+    pub fn mm_cvtepu8_epi32(a: __m128i) -> __m128i {
+        let a = u8x16(a);
+        from_i32x4([a[0] as i32, a[1] as i32, a[2] as i32, a[3] as i32])
+    }
+    // dst[i] (16 bit) := ZeroExtend(a.byte[i]), i = 0..7
+    pub fn mm_cvtepu8_epi16(a: __m128i) -> __m128i {
+        let a = u8x16(a);
+        let mut r = [0u16; 8];
+        let mut i = 0;
+        while i < 8 { r[i] = a[i] as u16; i += 1; }
+        from_u16x8(r)
+    }
+    // dst[i] (16 bit) := ZeroExtend(a.byte[i]), i = 0..15   (xmm source, ymm destination)
+    pub fn mm256_cvtepu8_epi16(a: __m128i) -> __m256i {
+        let a = u8x16(a);
+        let mut r = [0u16; 16];
+        let mut i = 0;
+        while i < 16 { r[i] = a[i] as u16; i += 1; }
+        unsafe { transmute(r) }
+    }
 
-// ---------------------------------------------------------------- SSE4.1 PEXTRQ, SSE2 PSHUFD
-// dst := a.qword[imm8[0]]
-pub fn mm_extract_epi64<const IMM1: i32>(a: __m128i) -> i64 {
-    let a: [i64; 2] = unsafe { transmute(a) };
-    a[(IMM1 & 1) as usize]
-}
-// dst.dword[i] := a.dword[imm8[2i+1:2i]]
-pub fn mm_shuffle_epi32<const IMM8: i32>(a: __m128i) -> __m128i {
-    let a = i32x4(a);
-    from_i32x4([a[(IMM8 & 3) as usize], a[((IMM8 >> 2) & 3) as usize], a[((IMM8 >> 4) & 3) as usize], a[((IMM8 >> 6) & 3) as usize]])
+    // ---------------------------------------------------------------- AVX/AVX2 128-bit lane insert / extract / cast
+    // VINSERTI128 / VINSERTF128: dst := a; dst[128*imm8[0] +: 128] := b
+    pub fn mm256_inserti128_si256<const IMM1: i32>(a: __m256i, b: __m128i) -> __m256i {
+        let a = halves(a);
+        if IMM1 & 1 == 0 { join(b, a[1]) } else { join(a[0], b) }
+    }
+    pub fn mm256_insertf128_si256<const IMM1: i32>(a: __m256i, b: __m128i) -> __m256i {
+        let a = halves(a);
+        if IMM1 & 1 == 0 { join(b, a[1]) } else { join(a[0], b) }
+    }
+    // VEXTRACTI128: dst := a[128*imm8[0] +: 128]
+    pub fn mm256_extracti128_si256<const IMM1: i32>(a: __m256i) -> __m128i {
+        let a = halves(a);
+        if IMM1 & 1 == 0 { a[0] } else { a[1] }
+    }
+    // cast xmm -> ymm: low half = a, high half UNDEFINED by the ISA (the model picks zero; the kernels always overwrite the high half
+    // with VINSERT*128 before use, and the self-test compares the low half only)
+    pub fn mm256_castsi128_si256(a: __m128i) -> __m256i {
+        join(a, from_i32x4([0; 4]))
+    }
+    // cast ymm -> xmm: the low half
+    pub fn mm256_castsi256_si128(a: __m256i) -> __m128i {
+        halves(a)[0]
+    }
+
+    // ---------------------------------------------------------------- SSE4.1 PEXTRQ, SSE2 PSHUFD
+    // dst := a.qword[imm8[0]]
+    pub fn mm_extract_epi64<const IMM1: i32>(a: __m128i) -> i64 {
+        let a: [i64; 2] = unsafe { transmute(a) };
+        a[(IMM1 & 1) as usize]
+    }
+    // dst.dword[i] := a.dword[imm8[2i+1:2i]]
+    pub fn mm_shuffle_epi32<const IMM8: i32>(a: __m128i) -> __m128i {
+        let a = i32x4(a);
+        from_i32x4([a[(IMM8 & 3) as usize], a[((IMM8 >> 2) & 3) as usize], a[((IMM8 >> 4) & 3) as usize], a[((IMM8 >> 6) & 3) as usize]])
+    }
 }
